@@ -86,7 +86,14 @@ func (e *Engine) buildVCy(key string, con *Contract, excl map[string]bool, force
 		UsedCon: map[string]bool{}, autoExcl: excl, Active: e.Active, nonnil: map[string]bool{}, knownLen: map[string]int{}, Locals: map[string]string{}, escaped: map[*ssa.Alloc]bool{}, forceHeap: forceHeap, refEpoch: map[string]string{}, unfolded: map[string]bool{}, goalSeq: map[string]int{}}
 	res.Ctx = c
 	if con != nil {
-		for name := range e.Epoch {
+		names := map[string]bool{}
+		for n := range e.Epoch {
+			names[n] = true
+		}
+		for n := range e.Estable {
+			names[n] = true
+		}
+		for name := range names {
 			mention := func(s string) bool { return strings.Contains(s, name+"(") }
 			for _, cl := range con.Requires {
 				x.heapInv = x.heapInv || mention(cl.Expr)
@@ -165,8 +172,37 @@ func (e *Engine) buildVCy(key string, con *Contract, excl map[string]bool, force
 		cg := &Goal{Name: x.goalName(key, "canary", "return-reachable"), Func: key, Kind: "canary", Tags: tags, Text: "a return is reachable under the contract (ensures false is not provable)", ExpectSat: true}
 		c.AddGoal(cg, ec, BoolLit(true))
 		vars := x.contractVars(fn, args, results, "exit")
+		x.curPC = ec
 		env := x.specEnv(est, entry, vars)
 		x.bindLets(con, env, key)
+		if len(con.Hints) > 0 {
+			// proof hints speak about locals at exit; each is guarded by the path condition of the block that defines them
+			hv, hguard := fr.exitVars(est)
+			for k, v := range vars {
+				if _, shadow := hv[k]; !shadow {
+					hv[k] = v
+				}
+			}
+			henv := x.specEnv(est, entry, hv)
+			x.bindLets(con, henv, key)
+			for _, cl := range con.Hints {
+				t, err := henv.compileBool(cl.ast)
+				if err != nil {
+					panic(fmt.Sprintf("contract error: %s hint %s: %v", key, cl.Label, err))
+				}
+				g := ec
+				for name, bc := range hguard {
+					if strings.Contains(cl.Expr, name) {
+						g = And(g, bc)
+					}
+				}
+				tg := cl.Tags
+				if len(tg) == 0 {
+					tg = tags
+				}
+				x.oblige(key, "hint", cl.Label, cl.Expr, tg, fmt.Sprintf("contracts_verif.go:%d", cl.Line), g, t)
+			}
+		}
 		for _, cl := range con.Ensures {
 			t, err := env.compileBool(cl.ast)
 			if err != nil {
